@@ -108,10 +108,7 @@ func (fr *frame) call(v ssa.Value, c *ssa.CallCommon, st *State, g string, isDef
 				return
 			}
 		}
-		res := fr.freshResults(v, sig, st, g, hint, false)
-		fr.setResult(v, res)
-		vc.note("call through a function value: result arbitrary, heap havocked")
-		vc.havocAll(st, "dynamic call")
+		fr.dynamicCall(v, c, sig, st, g, fv, args, argT, hint)
 		return
 	}
 	var ci *closureInfo
@@ -145,6 +142,104 @@ func (fr *frame) call(v ssa.Value, c *ssa.CallCommon, st *State, g string, isDef
 	}
 	vc.note("call of " + k + " (no contract, not inlinable): result arbitrary, heap havocked")
 	vc.havocAll(st, "call "+k)
+}
+
+// dynamicCall: a call through a function value. The enclosing contract may assert things about the callee value and
+// the actual arguments (`at-call dynamic requires[label] e` over fn, a0, a1, ...) and may *assume* that the unknown
+// callee leaves some locations alone (`assume-call preserves loc, elems(x)`; listed as an assumption in the evidence).
+func (fr *frame) dynamicCall(v ssa.Value, c *ssa.CallCommon, sig *types.Signature, st *State, g, fv string, args []string, argT []types.Type, hint string) {
+	vc := fr.vc
+	root := fr.rootFr
+	bindArgs := func(env *specEnv) {
+		env.vars["fn"] = sval{t: fv, typ: c.Value.Type()}
+		for i := range args {
+			env.vars[fmt.Sprintf("a%d", i)] = sval{t: args[i], typ: argT[i]}
+		}
+	}
+	if root.contract != nil {
+		root.dynCalls++
+		for _, cl := range root.contract.Get("at-call") {
+			txt := strings.TrimSpace(cl.Text)
+			if !strings.HasPrefix(txt, "dynamic") {
+				continue
+			}
+			txt = strings.TrimSpace(strings.TrimPrefix(txt, "dynamic"))
+			txt = strings.TrimSpace(strings.TrimPrefix(txt, "requires"))
+			lab, body := splitLabel(txt)
+			e, err := ParseExpr(body)
+			if err != nil {
+				vc.specErrors = append(vc.specErrors, "at-call dynamic: "+err.Error())
+				continue
+			}
+			env := root.specEnvAt(st)
+			bindArgs(env)
+			vc.oblige("at-call", fmt.Sprintf("dynamic#%d:%s", root.dynCalls, lab), g, env.trBool(e), "at a call through a function value: "+body, root.props, posOf(fr.fn, c.Pos()))
+		}
+	}
+	pre := st.clone()
+	res := fr.freshResults(v, sig, st, g, hint, false)
+	fr.setResult(v, res)
+	vc.note("call through a function value: result arbitrary, heap havocked")
+	vc.havocAll(st, "dynamic call")
+	if root.contract != nil {
+		for _, cl := range root.contract.Get("assume-call") {
+			txt := strings.TrimSpace(cl.Text)
+			if !strings.HasPrefix(txt, "preserves") {
+				continue
+			}
+			vc.note("ASSUMED on " + root.contract.Name + ": calls through function values preserve " + strings.TrimSpace(strings.TrimPrefix(txt, "preserves")))
+			tmp := &Decl{Clauses: []*Clause{{Kind: "modifies", Text: strings.TrimSpace(strings.TrimPrefix(txt, "preserves"))}}}
+			items, _, err := parseModifies(tmp)
+			if err != nil {
+				vc.specErrors = append(vc.specErrors, "assume-call preserves: "+err.Error())
+				continue
+			}
+			env := root.specEnvAt(pre)
+			for _, it := range items {
+				switch it.kind {
+				case "loc":
+					addr, t, ok := env.lvalue(it.e)
+					if !ok {
+						vc.specErrors = append(vc.specErrors, "assume-call preserves "+it.e.String()+": not an lvalue")
+						continue
+					}
+					fr.restoreLoc(pre, st, addr, t)
+				case "elems":
+					sv := env.tr(it.e)
+					sl, ok := sv.typ.Underlying().(*types.Slice)
+					if !ok {
+						continue
+					}
+					for _, cls := range vc.classesOfType(sl.Elem()) {
+						vc.assume(fmt.Sprintf("(forall ((a Int)) (! (=> (= (ea_arr a) (s_arr %s)) (= (select %s a) (select %s a))) :pattern ((select %s a))))", sv.t, vc.heapOf(st, cls), vc.heapOf(pre, cls), vc.heapOf(st, cls)))
+					}
+				case "class":
+					if t := env.resolveType(it.typ); t != nil {
+						for _, cls := range vc.classesOfType(t) {
+							st.heap[cls] = vc.heapOf(pre, cls)
+						}
+					}
+				}
+			}
+		}
+	}
+}
+
+func (fr *frame) restoreLoc(pre, st *State, addr string, t types.Type) {
+	vc := fr.vc
+	switch u := t.Underlying().(type) {
+	case *types.Struct:
+		for i := 0; i < u.NumFields(); i++ {
+			fr.restoreLoc(pre, st, vc.fieldAddr(t, i, addr), u.Field(i).Type())
+		}
+		return
+	case *types.Array:
+		for i := 0; i < int(u.Len()) && i < 32; i++ {
+			fr.restoreLoc(pre, st, vc.ea(addr, fmt.Sprint(i)), u.Elem())
+		}
+		return
+	}
+	vc.store(st, addr, t, vc.load(pre, addr, t))
 }
 
 // functions of the standard library that are known not to write program-visible memory (value-only arguments and results)
@@ -852,29 +947,39 @@ func (fr *frame) appendBuiltin(v ssa.Value, c *ssa.CallCommon, st *State, g stri
 	et := sl.Elem()
 	// the appended part: in SSA the variadic arguments arrive as one slice (or a string for []byte)
 	extra := fr.val(c.Args[1])
-	var n string
 	isStr := isString(c.Args[1].Type())
-	if isStr {
-		n = "(slen " + extra + ")"
-	} else {
-		n = "(s_len " + extra + ")"
+	hint := fr.prefix + v.Name()
+	nm := func(suffix, term string) string {
+		n := vc.freshConst(hint+"#"+suffix, "Int")
+		vc.assume("(= " + n + " " + term + ")")
+		return n
 	}
-	// result slice
-	fits := fmt.Sprintf("(<= (+ (s_len %s) %s) (s_cap %s))", s, n, s)
-	fresh := vc.alloc(st, fr.prefix+v.Name()+"#arr")
-	ncap := vc.freshConst(fr.prefix+v.Name()+"#cap", "Int")
-	vc.assume(fmt.Sprintf("(>= %s (+ (s_len %s) %s))", ncap, s, n))
-	res := fmt.Sprintf("(ite %s (mk_slice (s_arr %s) (s_off %s) (+ (s_len %s) %s) (s_cap %s)) (mk_slice %s 0 (+ (s_len %s) %s) %s))", fits, s, s, s, n, s, fresh, s, n, ncap)
-	fr.set(v, res)
-	r := fr.vals[v]
-	// element heaps: new heap agrees with old except at the result's element addresses; result elements are s's then extra's
+	// named components (opaque constants: robust triggers)
+	sarr, soff, slen, scap := nm("sarr", "(s_arr "+s+")"), nm("soff", "(s_off "+s+")"), nm("slen", "(s_len "+s+")"), nm("scap", "(s_cap "+s+")")
+	var n, xarr, xoff string
+	if isStr {
+		n = nm("n", "(slen "+extra+")")
+	} else {
+		n = nm("n", "(s_len "+extra+")")
+		xarr, xoff = nm("xarr", "(s_arr "+extra+")"), nm("xoff", "(s_off "+extra+")")
+	}
+	fits := fmt.Sprintf("(<= (+ %s %s) %s)", slen, n, scap)
+	fresh := vc.alloc(st, hint+"#arr")
+	ncap := vc.freshConst(hint+"#cap", "Int")
+	vc.assume(fmt.Sprintf("(and (>= %s (+ %s %s)) (< %s 4611686018427387904))", ncap, slen, n, ncap))
+	rarr, roff, rlen, rcap := vc.freshConst(hint+"#rarr", "Int"), vc.freshConst(hint+"#roff", "Int"), vc.freshConst(hint+"#rlen", "Int"), vc.freshConst(hint+"#rcap", "Int")
+	vc.assume(fmt.Sprintf("(= %s (+ %s %s))", rlen, slen, n))
+	vc.assume(fmt.Sprintf("(=> %s (and (= %s %s) (= %s %s) (= %s %s)))", fits, rarr, sarr, roff, soff, rcap, scap))
+	vc.assume(fmt.Sprintf("(=> (not %s) (and (= %s %s) (= %s 0) (= %s %s)))", fits, rarr, fresh, roff, rcap, ncap))
+	fr.set(v, fmt.Sprintf("(mk_slice %s %s %s %s)", rarr, roff, rlen, rcap))
+	vc.needEAQuant()
 	for _, cl := range vc.classesOfType(et) {
 		old := vc.heapOf(st, cl)
 		vc.havocClass(st, cl)
 		nw := st.heap[cl]
-		// unchanged outside the appended range of the result array
-		vc.assume(fmt.Sprintf("(forall ((a Int)) (! (=> (not (and (= (ea_arr a) (s_arr %s)) (>= (ea_idx a) (+ (s_off %s) (s_len %s))) (< (ea_idx a) (+ (s_off %s) (s_len %s))))) (or (= (ea_arr a) %s) (= (select %s a) (select %s a)))) :pattern ((select %s a))))",
-			r, r, s, r, r, fresh, nw, old, nw))
+		// unchanged outside the appended range of the result array (and outside the fresh array)
+		vc.assume(fmt.Sprintf("(forall ((a Int)) (! (=> (and (not (= (ea_arr a) %s)) (not (and (= (ea_arr a) %s) (>= (ea_idx a) (+ %s %s)) (< (ea_idx a) (+ %s %s))))) (= (select %s a) (select %s a))) :pattern ((select %s a))))",
+			fresh, rarr, roff, slen, roff, rlen, nw, old, nw))
 	}
 	if _, isStruct := et.Underlying().(*types.Struct); isStruct || isStr {
 		vc.note("append of struct elements / string bytes: element values of the result are not characterised")
@@ -885,17 +990,15 @@ func (fr *frame) appendBuiltin(v ssa.Value, c *ssa.CallCommon, st *State, g stri
 	}
 	cl := vc.className(et)
 	nw := vc.heapOf(st, cl)
-	// old heap for reading s and extra: the heap before havoc is what vc.heapOf returned; recover it from the assumption above by re-deriving
-	// (we kept it in `oldHeaps`)
 	old := fr.lastOld(cl, nw)
 	if old == "" {
 		return
 	}
-	vc.needEAQuant()
-	vc.assume(fmt.Sprintf("(forall ((i Int)) (! (=> (and (<= 0 i) (< i (s_len %s))) (= (select %s (ea (s_arr %s) (+ (s_off %s) i))) (select %s (ea (s_arr %s) (+ (s_off %s) i))))) :pattern ((select %s (ea (s_arr %s) (+ (s_off %s) i))))))",
-		s, nw, r, r, old, s, s, nw, r, r))
-	vc.assume(fmt.Sprintf("(forall ((i Int)) (! (=> (and (<= 0 i) (< i %s)) (= (select %s (ea (s_arr %s) (+ (s_off %s) (s_len %s) i))) (select %s (ea (s_arr %s) (+ (s_off %s) i))))) :pattern ((select %s (ea (s_arr %s) (+ (s_off %s) (s_len %s) i))))))",
-		n, nw, r, r, s, old, extra, extra, nw, r, r, s))
+	// elements of the result by absolute index k into the result's backing array
+	vc.assume(fmt.Sprintf("(forall ((k Int)) (! (=> (and (<= %s k) (< k (+ %s %s))) (= (select %s (ea %s k)) (select %s (ea %s (+ %s (- k %s)))))) :pattern ((select %s (ea %s k)))))",
+		roff, roff, slen, nw, rarr, old, sarr, soff, roff, nw, rarr))
+	vc.assume(fmt.Sprintf("(forall ((k Int)) (! (=> (and (<= (+ %s %s) k) (< k (+ %s %s))) (= (select %s (ea %s k)) (select %s (ea %s (+ %s (- k %s %s)))))) :pattern ((select %s (ea %s k)))))",
+		roff, slen, roff, rlen, nw, rarr, old, xarr, xoff, roff, slen, nw, rarr))
 }
 
 // lastOld finds the heap term that was replaced by nw in the most recent havocClass (recorded by havocClass)
@@ -1061,6 +1164,11 @@ func (fr *frame) loopHeader(b *ssa.BasicBlock, li *loopInfo, states []*State, co
 		vc.assume("(>= " + nhw + " " + st.hw + ")")
 		st.hw = nhw
 	}
+	for _, c := range vc.localCells {
+		if a, ok := c.alloc.(*ssa.Alloc); ok && !fr.allocWrittenIn(li, a) {
+			vc.store(st, c.addr, c.typ, vc.load(pre, c.addr, c.typ))
+		}
+	}
 	for k := range st.ghost {
 		st.ghost[k] = vc.freshConst("ghost_"+k, vc.ghostSort(k))
 		if vc.ghostSort(k) == "Int" {
@@ -1085,12 +1193,36 @@ func (fr *frame) loopHeader(b *ssa.BasicBlock, li *loopInfo, states []*State, co
 		f := env.trBool(c.E)
 		vc.assumeG(bg, f)
 	}
+	// implicit invariant: the function's frame condition holds at every iteration (checked again on the back edge)
+	if fr.top && fr.contract != nil {
+		if items, specified, err := parseModifies(fr.contract); err == nil && specified {
+			if fs, ok := fr.frameFormulas(items, fr.entry, st, true); ok {
+				for _, f := range fs {
+					vc.assumeG(bg, f)
+				}
+			}
+		}
+	}
 	return st
 }
 
 func (fr *frame) loopBackEdge(from, header *ssa.BasicBlock, li *loopInfo, st *State, cond string) {
 	vc := fr.vc
 	invs := fr.loopClauses(li)
+	if fr.top && fr.contract != nil {
+		if items, specified, err := parseModifies(fr.contract); err == nil && specified {
+			if fs, ok := fr.frameFormulas(items, fr.entry, st, true); ok {
+				var cs []string
+				for c := range fs {
+					cs = append(cs, c)
+				}
+				sort.Strings(cs)
+				for _, c := range cs {
+					vc.oblige("inv-keep", fmt.Sprintf("loop%d:frame:%s", li.ordinal, strings.TrimPrefix(c, "H_")), cond, fs[c], "the frame condition is preserved by the loop body (class "+c+")", fr.props, posOf(fr.fn, blockPos(from)))
+				}
+			}
+		}
+	}
 	if len(invs) == 0 {
 		return
 	}
@@ -1119,6 +1251,49 @@ func (fr *frame) loopBackEdge(from, header *ssa.BasicBlock, li *loopInfo, st *St
 		}
 		vc.oblige("inv-keep", lab, cond, f, fmt.Sprintf("loop %d invariant %s is preserved", li.ordinal, c.Text), fr.props, posOf(fr.fn, blockPos(from)))
 	}
+}
+
+// allocWrittenIn: may the loop body write the local cell? (a store through it or a derived address, a callee or a
+// closure that received the address)
+func (fr *frame) allocWrittenIn(li *loopInfo, a *ssa.Alloc) bool {
+	var derived func(v ssa.Value, depth int) bool
+	derived = func(v ssa.Value, depth int) bool {
+		if v.Referrers() == nil || depth > 6 {
+			return true
+		}
+		for _, ref := range *v.Referrers() {
+			switch x := ref.(type) {
+			case *ssa.Store:
+				if x.Addr == v && li.body[x.Block()] {
+					return true
+				}
+			case *ssa.FieldAddr:
+				if derived(x, depth+1) {
+					return true
+				}
+			case *ssa.IndexAddr:
+				if derived(x, depth+1) {
+					return true
+				}
+			case *ssa.Call:
+				if li.body[x.Block()] {
+					return true
+				}
+			case *ssa.Defer:
+				return true
+			case *ssa.MakeClosure:
+				if x.Referrers() != nil {
+					for _, cr := range *x.Referrers() {
+						if in, ok := cr.(ssa.Instruction); ok && li.body[in.Block()] {
+							return true
+						}
+					}
+				}
+			}
+		}
+		return false
+	}
+	return derived(a, 0)
 }
 
 // loopModifies: heap classes the loop body may write (all = everything)
